@@ -273,7 +273,7 @@ namespace bluetoe {
         {
         public:
             notification_queue_impl()
-                : state_( notification_queue_entry_type::empty )
+                : state_( 0 )
             {
             }
 
@@ -282,47 +282,54 @@ namespace bluetoe {
                 static_cast< void >( idx );
                 assert( idx == 0 );
 
-                const bool result = state_ == notification_queue_entry_type::empty;
-
-                if ( result )
-                    state_ = notification_queue_entry_type::notification;
-
-                return result;
+                return add( notification_bit );
             }
 
             bool queue_indication( std::size_t idx )
             {
                 static_cast< void >( idx );
                 assert( idx == 0 );
-                const bool result = state_ == notification_queue_entry_type::empty;
 
-                if ( result )
-                    state_ = notification_queue_entry_type::indication;
-
-                return result;
+                return add( indication_bit );
             }
 
             std::pair< notification_queue_entry_type, std::size_t > dequeue_indication_or_confirmation( std::size_t offset, std::size_t& outstanding_confirmation )
             {
-                const auto result = state_ == notification_queue_entry_type::notification || ( state_ == notification_queue_entry_type::indication && outstanding_confirmation == details::no_outstanding_indicaton )
-                    ? std::pair< notification_queue_entry_type, std::size_t >{ static_cast< notification_queue_entry_type >( state_ ), offset }
-                    : std::pair< notification_queue_entry_type, std::size_t >{ notification_queue_entry_type::empty, 0 };
-
-                if ( result.first == notification_queue_entry_type::indication )
+                if ( state_ & indication_bit && outstanding_confirmation == details::no_outstanding_indicaton )
+                {
                     outstanding_confirmation = offset;
+                    state_ &= ~indication_bit;
+                    return { notification_queue_entry_type::indication, offset };
+                }
+                else if ( state_ & notification_bit )
+                {
+                    state_ &= ~notification_bit;
+                    return { notification_queue_entry_type::notification, offset };
+                }
 
-                if ( result.first != notification_queue_entry_type::empty )
-                    state_ = notification_queue_entry_type::empty;
-
-                return result;
+                return { notification_queue_entry_type::empty, 0 };
             }
 
             void clear_indications_and_confirmations()
             {
-                state_ = notification_queue_entry_type::empty;
+                state_ = 0;
             }
         private:
-            notification_queue_entry_type state_;
+            // a characteristic can be queued for a notification and for an indication at the same time
+            enum char_bits {
+                notification_bit = 0x01,
+                indication_bit   = 0x02
+            };
+
+            bool add( int bits )
+            {
+                const bool result = ( state_ & bits ) == 0;
+                state_ |= bits;
+
+                return result;
+            }
+
+            std::uint8_t state_;
         };
 
         template < int C >
